@@ -50,14 +50,15 @@ with quiet_stdout():
 setup(c0)
 c0.close_db_conn() if False else c0.db_conn.close()
 
-PAGES = ["plain text", "{{a|x}} and {{a}}", "{{nw}} {{nw}} <nowiki>q</nowiki>", "{{loop}}", "<pre>unclosed pre\n* li", "==H==\n* a\n** b", "{{#expr:1+}} {{#if:x|y}}",
+PAGES = ["plain text", "{{a|x}} and {{a}}", "{{nw}} {{nw}} <nowiki>q</nowiki>", "{{#time:Y-m-d|1 mars 2020}} {{formatnum:87654321.5}}",
+         "{{#time:Y-m-d|02/03/2020}} {{#time:j F Y|10.11.2019}} {{formatnum:1234567.25}}", "{{loop}}", "<pre>unclosed pre\n* li", "==H==\n* a\n** b", "{{#expr:1+}} {{#if:x|y}}",
          "{| \n| cell\n|}", "'''bold ''it", "{{:Foo:Bar}}", "{{PAGESIZE:Foo:Bar}}", "{{#lst:Glossary|s}}", "{{:Glossary}}",
          "<foo>x</foo> <b>y</b>", "{{h|z}}", "[[L|{{a}}]] [http://x y]", "<nowiki>{{a}}</nowiki><!-- c -->", "{{#invoke}}",
          "{{nosuch|{{a}}}}", ":; mixed\n#* list", "<ref name=x>r</ref><references/>", "{{a|\n}}", "</pre> </b> |}", "{{#tag:span|x}}",
          "{{t|" * 700 + "x" + "}}" * 700, "[[L|" * 700 + "x"]
 DEEP = [i for i, p in enumerate(PAGES) if len(p) > 1000]
 if tier == "quick":
-    PAGES = PAGES[:17] + PAGES[-2:]
+    PAGES = PAGES[:19] + PAGES[-2:]
     DEEP = [i for i, p in enumerate(PAGES) if len(p) > 1000]
 
 
@@ -184,7 +185,7 @@ for first, second in itertools.product(range(len(SP_PAGES)), repeat=2):
 import json
 import subprocess
 from bounded.c09_langprobe import probe
-for lang in (["fr", "zh"] if tier == "quick" else ["fr", "zh", "de", "ru", "es", "ja"]):
+for lang in (["fr", "zh", "hi"] if tier == "quick" else ["fr", "zh", "hi", "de", "ru", "es", "ja", "te"]):
     evaluations += 1
     try:
         child = subprocess.run([sys.executable, "-m", "bounded.c09_langprobe", lang], capture_output=True, text=True,
@@ -194,6 +195,11 @@ for lang in (["fr", "zh"] if tier == "quick" else ["fr", "zh", "de", "ru", "es",
         fail("c09:other-language-context#baseline-run", f"{type(ex).__name__}: {ex}", {"lang": lang}, "harness")
         continue
     got = json.loads(json.dumps(probe(lang), sort_keys=True, default=str))
+    for p_, (first_, again_) in got.get("__repeat__", {}).items():
+        if first_ != again_:
+            fail("c09:same-text-on-a-later-page-gives-the-same-expansion",
+                 f"lang_code={lang!r}: {p_!r} gave {first_!r} on its first page and {again_!r} on a later page of the same context",
+                 {"lang_code": lang, "page": p_}, "history-dependent")
     if got != want:
         diff = [k for k in want if got.get(k) != want.get(k)]
         fail("c09:other-language-context-equals-fresh-interpreter",
